@@ -180,6 +180,16 @@ func (b *binder) bind1(v ssa.Value, d int) string {
 				return "[" + strings.Join(parts, ", ") + "]"
 			}
 		}
+		if x.Low != nil || x.High != nil {
+			lo, hi := "", ""
+			if x.Low != nil {
+				lo = b.bindD(x.Low, d+1)
+			}
+			if x.High != nil {
+				hi = b.bindD(x.High, d+1)
+			}
+			return "slice(" + b.bindD(x.X, d+1) + "," + lo + ":" + hi + ")"
+		}
 		return "slice(" + b.bindD(x.X, d+1) + ")"
 	case *ssa.MakeClosure:
 		return "closure:" + x.Fn.Name()
